@@ -1,6 +1,7 @@
 SPECIFICATION Spec
 CONSTANTS
   BloomIds = {"r1", "r2", "blk"}
+  Block = "blk"
   AddrIds = {"a1", "a2"}
   ValIds = {"x", "e"}
   MaxPos = 1
@@ -9,4 +10,4 @@ CONSTANTS
   Proj <- NoProj
 VIEW ViewState
 INVARIANTS NoFalseNegative Exact
-PROPERTIES QueriesSound MergeKeeps Monotone
+PROPERTIES QueriesSound MergeKeeps CollectCovers Monotone
